@@ -591,6 +591,33 @@ fn long_run(ctx: &Ctx, rep: &mut Report) {
     );
 }
 
+fn notification_sequences(ctx: &Ctx, rep: &mut Report) {
+    // every sequence number 0..=70000 and the neighbourhoods of 2^24 and 2^32
+    let mut extra: Vec<u32> = Vec::new();
+    for c in [1u32 << 24, u32::MAX - 300] {
+        for d in 0..600u32 {
+            extra.push(c.wrapping_sub(300).wrapping_add(d));
+        }
+    }
+    let n = 70_001u64 + extra.len() as u64;
+    ctx.family(rep, "notification-sequence-sweep", "create_notification for every sequence number 0..=70000 and 600 values around 2^24 and below 2^32: Observe value is the minimal big-endian number, wire image == reference", n, true, |i, rep| {
+        let seq: u32 = if i <= 70_000 { i as u32 } else { extra[(i - 70_001) as usize] };
+        let expect = RefMsg { version: 1, mtype: 1, token: vec![0xAB, 0xCD], code: 0x45, mid: 0x7777, options: vec![(6, refmodel::uint::enc(seq as u128))], payload: vec![1, 2] };
+        match guard(|| {
+            let p = create_notification(0x7777, vec![0xAB, 0xCD], seq, vec![1, 2], false);
+            (to_ref(&p), p.to_bytes())
+        }) {
+            Ok((got, wire)) if got == expect && wire.as_ref().ok() == Some(&codec::enc(&expect).unwrap()) => {
+                if seq % 4096 == 0 {
+                    rep.bucket(&("nseq", refmodel::uint::enc(seq as u128).len()));
+                }
+                rep.count("notification-ok");
+            }
+            other => rep.violation(viol("notification-sequence-sweep", i, "C15/notification-fields", format!("sequence {}: {:?}", seq, other.map(|x| x.0.options)), Json::obj().set("sequence", seq))),
+        }
+    });
+}
+
 pub fn run_c15(ctx: &Ctx, rep: &mut Report) {
     for l in [0u8, 1, 2] {
         bfs_limit(Prop::C15, ctx, rep, l, false, 0);
@@ -606,6 +633,7 @@ pub fn run_c15(ctx: &Ctx, rep: &mut Report) {
     directed(ctx, rep);
     long_run(ctx, rep);
     notifications(ctx, rep);
+    notification_sequences(ctx, rep);
     rep.assume("refmodel::subject is the trusted reference; the sequence number of a round nobody observes follows the implementation");
     rep.assume("the 32-bit sequence counter itself is not driven to its limit (2^32 rounds); directed scripts have 600 rounds; the long-run family has 2^24 + 8 rounds");
 }
